@@ -254,7 +254,9 @@ fn rnd_cell(r: &mut StdRng) -> Cell {
             5 => *[219u32, 220, 223].get(r.gen_range(0..3)).unwrap(),
             _ => r.gen_range(0..256),
         };
-        let attr = match r.gen_range(0..12) { 0 => 1u16, 1 => 8, 2 => 16, 3 => 9, _ => 0 };
+        // every style bit (bold, faint, italic, blink, underline, double underline, conceal, crossed out, double height): a style
+        // never decides whether a cell is there
+        let attr = match r.gen_range(0..16) { 0 => 1u16, 1 => 8, 2 => 16, 3 => 9, 4 => 2, 5 => 4, 6 => 32, 7 => 64, 8 => 128, 9 => 256, 10 => 64 | 8, _ => 0 };
         let font = if r.gen_range(0..20) == 0 { r.gen_range(1..4) } else { 0 };
         Cell { ch, fg: r.gen_range(0..16), bg: if r.gen_bool(0.4) { 0 } else { r.gen_range(0..16) }, attr, font }
     }
